@@ -125,7 +125,7 @@ def handleOracle (op : String) (args : List String) : Option String :=
     let v ← valueOfString v
     let k ← kindOfString k
     let kc ← kindOfString kc
-    pure (if !C19.canonLaw v k kc then "fails canon:-"
+    pure (if !C19.canonLaw v k kc then "fails canon:" ++ (C19.canonClass k).name
       else if !C19.canonRevLaw v k kc then "fails canon_rev:" ++ (C19.canonClass k).name
       else if eqSelf != "1" then "fails canon_eq:" ++ (C19.canonClass k).name else "holds")
   | _, _ => none
